@@ -104,7 +104,14 @@ func loadEngine(dirs []string) (*engine, error) {
 	declRe := regexp.MustCompile(`^\(declare-fun\s+(\S+)\s+\(([^)]*)\)\s+(\S+)\)`)
 	defRe := regexp.MustCompile(`^\(define-fun(?:-rec)?\s+(\S+)\s+\((.*)\)\s+(Int|Bool)\s`)
 	for _, l := range e.contracts.smt {
-		if m := declRe.FindStringSubmatch(l); m != nil {
+		if strings.HasPrefix(l, "(declare-fun ") {
+			name := strings.Fields(l)[1]
+			if strings.HasSuffix(strings.TrimSpace(l), " Bool)") {
+				e.smtFuncs[name] = "Bool"
+			} else {
+				e.smtFuncs[name] = "Other"
+			}
+		} else if m := declRe.FindStringSubmatch(l); m != nil {
 			e.smtFuncs[m[1]] = m[3]
 		} else if m := defRe.FindStringSubmatch(l); m != nil {
 			e.smtFuncs[m[1]] = m[3]
